@@ -39,7 +39,25 @@ extern void v_pre_unsat(const char *what);
 # define V_CANARY()            do { } while (0)
 # define V_WAS_FREED(p)        0
 # define V_GHOST
+/* harness arrays that the verifier leaves unconstrained: filled from the counterexample */
+# define V_FILL(name)          v_in(#name, (name), sizeof(name))
+/* verifier primitives used by harness stand-ins, native meaning */
+extern void   v_obj(const void *base, size_t size);
+extern int    v_same_object(const void *p, const void *q);
+extern size_t v_pointer_offset(const void *p);
+# define V_OBJ(x)              v_obj(&(x), sizeof(x))
+/* a stand-in's free choice (already declared variable): the value the verifier chose */
+# define V_ND(type, name)      v_in(#name, &(name), sizeof(name))
+# define __CPROVER_assume(c)   do { if (!(c)) v_pre_unsat(#c); } while (0)
+# define __CPROVER_assert(c, m) do { if (!(c)) v_fail(m); } while (0)
+# define __CPROVER_havoc_object(p) do { } while (0)
+# define __CPROVER_same_object(p, q) v_same_object((p), (q))
+# define __CPROVER_POINTER_OFFSET(p) v_pointer_offset(p)
 #else
+/* whole-array nondeterministic assignment: makes the chosen bytes appear in the counterexample trace */
+# define V_FILL(name)          do { struct v_w_##name { __typeof__(name) a; } nd_w_##name; *(struct v_w_##name *) (void *) (name) = nd_w_##name; } while (0)
+# define V_OBJ(x)              do { } while (0)
+# define V_ND(type, name)      do { type nd_##name; (name) = nd_##name; } while (0)
 /* errno as an assigns target (the macro errno is a call, which assigns clauses reject) */
 extern __CPROVER_thread_local int __CPROVER_errno;
 # define V_ERRNO               __CPROVER_errno
